@@ -266,6 +266,50 @@ def run(R):
                 R.check(ok, "C20.ERASE", key, site,
                         "both arms of `%s` reduce to the same behavioural statements once diagnostic-only statements are erased" % q.src(node.test)[:60],
                         "option %s changes behaviour in %s: %s" % (name, f.qualname, why))
+            # a local that exists only when an option is on is used only where that same test defined it: two separate tests of
+            # the option (definition under the first, use under the second, a call in between) disagree when the option is
+            # switched while the call runs - UnboundLocalError with profiling turned on mid-request
+            opt_ifs = [nd for nd in q.scope_nodes(f.node) if isinstance(nd, ast.If) and option_test(nd.test, aliases, opts) is not None]
+            if opt_ifs:
+                fcfg_ = cfg_of(f)
+                inside = set()
+                for nd in opt_ifs:
+                    for st in nd.body + nd.orelse:
+                        for x in ast.walk(st):
+                            inside.add(id(x))
+                stores_by = {}
+                for x in q.scope_nodes(f.node):
+                    if isinstance(x, ast.Name) and isinstance(x.ctx, ast.Store):
+                        stores_by.setdefault(x.id, []).append(x)
+                params = set(q.param_names(f.node))
+                for nm, sts in sorted(stores_by.items()):
+                    if nm in params or not all(id(x) in inside for x in sts):
+                        continue
+                    def _stores(n_):
+                        a_ = n_.ast
+                        if a_ is None:
+                            return False
+                        if isinstance(a_, (ast.For, ast.AsyncFor)):
+                            return any(isinstance(y, ast.Name) and y.id == nm for y in ast.walk(a_.target))
+                        if isinstance(a_, ast.ExceptHandler):
+                            return a_.name == nm
+                        if isinstance(a_, (ast.With, ast.AsyncWith)):
+                            return any(it.optional_vars is not None and any(isinstance(y, ast.Name) and y.id == nm for y in ast.walk(it.optional_vars)) for it in a_.items)
+                        if isinstance(a_, (ast.Assign, ast.AugAssign, ast.AnnAssign)):
+                            return nm in q.names_stored(a_)
+                        return False
+                    def_nodes = [n_ for n_ in fcfg_.nodes if _stores(n_)]
+                    use_nodes = [n_ for n_ in fcfg_.nodes if n_.kind in ("stmt", "test") and n_ not in def_nodes and n_.ast is not None
+                                 and not isinstance(n_.ast, (ast.FunctionDef, ast.AsyncFunctionDef, ast.ClassDef, ast.If, ast.While, ast.For, ast.Try, ast.With))
+                                 and any(isinstance(y, ast.Name) and y.id == nm and isinstance(y.ctx, ast.Load) for y in ast.walk(n_.ast))]
+                    for u in use_nodes:
+                        # (tests of one local that holds the option's value agree with each other: path-sensitive in those locals)
+                        pth = fcfg_.find_path_flags([fcfg_.entry], [u], set(_LOCAL_ALIASES), N, cut_nodes=def_nodes)
+                        R.check(pth is None, "C20.ERASE", "%s:local:%s:%s" % (f.qualname, nm, q.stmt_key(u.ast, 30)), R.site(f, u.ast),
+                                "the option-only local `%s` is used only below its definition, under the same test" % nm,
+                                "the local `%s` is defined only under a debug option but used under a separate test of it: if the option is switched on "
+                                "while the statements in between run (they call into tasks), the use raises UnboundLocalError" % nm,
+                                fcfg_.fmt_path(pth) if pth else None)
             # option reads outside `if` tests (conditional expressions, while tests, assignments)
             for node in q.scope_nodes(f.node):
                 if isinstance(node, ast.Attribute) and isinstance(node.ctx, ast.Load) and q.dotted(node.value) in aliases and node.attr in opts:
@@ -301,6 +345,7 @@ def run(R):
                     if not ok_ctx:
                         R.violation("C20.ERASE", "%s:%s:non-if" % (f.qualname, node.attr), R.site(f, node),
                                     "option %s is read outside an `if` test (%s): its value flows into the computation" % (node.attr, q.stmt_key(q.enclosing_stmt(node), 60)))
+    common.future_truthiness(R, "C20.ERASE")
     R.units["option_guards"] = n_guards
     R.need(n_guards >= 28, "fewer option-guarded branches than confirmed by hand (%d < 28)" % n_guards)
     # ---- diagnostic code cannot start a computation (debug.str(x) -> x.__str__)
